@@ -77,6 +77,42 @@ fn check_rc5_name(subject: &str, alg: &str) -> Result<(), (String, String)> {
     }
 }
 
+fn norm(s: &str) -> String {
+    s.chars().filter(|c| c.is_ascii_alphanumeric()).map(|c| c.to_ascii_lowercase()).collect()
+}
+
+fn digit_runs(s: &str) -> Vec<String> {
+    let mut v = Vec::new();
+    let mut cur = String::new();
+    for c in s.chars() {
+        if c.is_ascii_digit() {
+            cur.push(c);
+        } else if !cur.is_empty() {
+            v.push(std::mem::take(&mut cur));
+        }
+    }
+    if !cur.is_empty() {
+        v.push(cur);
+    }
+    v
+}
+
+/// The parameters that are part of the type's public name (key size, block size, variant number: the digit runs of
+/// e.g. `Aes192`, `Speck96_144`, `TdesEde3`) must all appear in the algorithm name.
+fn check_params_in_name(subject: &str, alg: &str) -> Result<(), (String, String)> {
+    let base = crate::subjects::base_name(subject);
+    let mut have = digit_runs(alg);
+    for want in digit_runs(base) {
+        match have.iter().position(|h| *h == want) {
+            Some(i) => {
+                have.remove(i);
+            }
+            None => return Err((format!("an algorithm name containing the parameter {want} of {base}"), alg.to_string())),
+        }
+    }
+    Ok(())
+}
+
 pub fn replay(case: &Value) -> Result<(), String> {
     let subjects = all_subjects();
     let name = case["subject"].as_str().unwrap();
@@ -84,6 +120,16 @@ pub fn replay(case: &Value) -> Result<(), String> {
     match case["kind"].as_str().unwrap_or("") {
         "debug" => check_debug(s.as_ref(), &unhex(case["key0"].as_str().unwrap()), &unhex(case["key"].as_str().unwrap())).map_err(|(e, o, w)| format!("{w}: expected {e}, observed {o}")),
         "algname-rc5" => check_rc5_name(name, &s.alg_name()).map_err(|(e, o)| format!("expected {e}, observed {o}")),
+        "algname-params" => check_params_in_name(name, &s.alg_name()).map_err(|(e, o)| format!("expected {e}, observed {o}")),
+        "algname-other-type" => {
+            let other = case["other"].as_str().unwrap();
+            let o = subjects.iter().find(|x| x.name() == other).ok_or("unknown subject")?;
+            if o.type_names().iter().any(|n| norm(n) == norm(&s.alg_name())) && !s.type_names().iter().any(|n| norm(n) == norm(&s.alg_name())) {
+                Err(format!("{name} writes the algorithm name {:?}, which is the name of {other}", s.alg_name()))
+            } else {
+                Ok(())
+            }
+        }
         "algname-collision" => {
             let other = case["other"].as_str().unwrap();
             let o = subjects.iter().find(|x| x.name() == other).ok_or("unknown subject")?;
@@ -129,6 +175,14 @@ pub fn run(ctx: &Ctx, rep: &mut Report) {
         if wi < 3 {
             r.sample(json!({"subject":name,"debug_text":first_text,"accepted_names":s.type_names(),"alg_name":s.alg_name(),"check":"Debug text equal for all keys and starts with the type's own name"}));
         }
+        if !name.starts_with("RC5<") {
+            r.evaluations += 1;
+            r.distinct_count += 1;
+            if let Err((e, o)) = check_params_in_name(&name, &s.alg_name()) {
+                let case = json!({"kind":"algname-params","subject":name});
+                r.violate(Violation { property: P.into(), subject: name.clone(), what: "algname-params".into(), case, expected: e, observed: o, note: "AlgorithmName must identify the parameters that are part of the type".into(), index: 0 });
+            }
+        }
         if name.starts_with("RC5<") {
             r.evaluations += 1;
             r.distinct_count += 1;
@@ -138,6 +192,22 @@ pub fn run(ctx: &Ctx, rep: &mut Report) {
             }
         }
     });
+    // an algorithm name may not be the public name of a *different* algorithm / variant (e.g. TdesEde3 calling itself TdesEee3)
+    for &i in &wanted {
+        let a = subjects[i].as_ref();
+        let an = norm(&a.alg_name());
+        if a.type_names().iter().any(|n| norm(n) == an) {
+            continue;
+        }
+        for &j in &wanted {
+            let b = subjects[j].as_ref();
+            if identity(&a.name()) != identity(&b.name()) && b.type_names().iter().any(|n| norm(n) == an) {
+                rep.violate(Violation { property: P.into(), subject: a.name(), what: "algname-other-type".into(), case: json!({"kind":"algname-other-type","subject":a.name(),"other":b.name()}),
+                    expected: "an algorithm name that identifies this type".into(), observed: format!("{} writes {:?}, the name of {}", a.name(), a.alg_name(), b.name()), note: "AlgorithmName names another algorithm".into(), index: 0 });
+                break;
+            }
+        }
+    }
     // pairwise distinctness of algorithm names between different algorithms / variants / key sizes
     let mut by_name: BTreeMap<String, Vec<String>> = BTreeMap::new();
     for &i in &wanted {
